@@ -1648,9 +1648,12 @@ def ppid_map():
         try:
             with open_binary(f"{procfs_path}/{pid}/stat") as f:
                 data = f.read()
-        except (FileNotFoundError, ProcessLookupError):
-            # Note: we should be able to access /stat for all processes
-            # aka it's unlikely we'll bump into EPERM, which is good.
+        except (FileNotFoundError, ProcessLookupError, PermissionError):
+            # ENOENT / ESRCH: the process disappeared on us. EACCES /
+            # EPERM: /stat is normally readable for all processes, but
+            # if it is not (hardened kernels, containers) skip that PID
+            # instead of letting a bare PermissionError escape from
+            # Process.children().
             pass
         else:
             rpar = data.rfind(b')')
